@@ -85,6 +85,7 @@ MASK = {
             conj_with="is-linehaul", why="linehauls before backhauls: not carrying backhaul when delivering"),
         Lit("depot-after-depot", "eq", cells={"current_node"}, conj=False, alt=True),
     ],
+    # (sign overrides for MTVRP are attached below the table)
     # incremental family: literals of the `action_mask` value written by `_step`
     "TSPEnv": [
         Lit("still-available", "cell", key="action_mask", sign=+1, why="mask only shrinks"),
@@ -151,6 +152,21 @@ MONOTONE = {
 }
 
 # C01.e -- per-route accumulators that restart at the depot
+def _signs(env, name, table=None, **kw):
+    for lit in (table if table is not None else MASK)[env]:
+        if lit.name == name:
+            lit.signs.update({k: set(v) for k, v in kw.items()})
+            return
+    raise KeyError((env, name))
+
+
+# the speed divides the travel time (faster -> more slack); an open route drops the return leg (more slack); the depot-return literal
+# compares the depot's closing time (+) with max(arrival, customer window start) (-); remaining linehaul demand falls as nodes get visited
+_signs("MTVRPEnv", "tw-customer", speed={+1})
+_signs("MTVRPEnv", "tw-depot-return", speed={+1}, open_route={+1}, time_windows={+1, -1})
+_signs("MTVRPEnv", "distance-limit", open_route={+1})
+_signs("MTVRPEnv", "linehauls-missing", visited={-1})
+
 ACCUMULATORS = {
     "CVRPEnv": ["used_capacity"], "CVRPTWEnv": ["used_capacity", "current_time"], "SDVRPEnv": ["used_capacity"],
     "MTVRPEnv": ["current_time", "current_route_length", "used_capacity_linehaul", "used_capacity_backhaul"],
@@ -220,6 +236,13 @@ CHECK["CVRPTWEnv"] = CHECK["CVRPEnv"] + [
         why="service starts within the window; clock = max(arrival, window start) + duration, reset at the depot"),
 ]
 CHECK["SPCTSPEnv"] = CHECK["PCTSPEnv"]
+
+# sign overrides for checker literals: window starts (-) and ends (+) of the same key; the speed divides; an open route drops the return
+# leg; OP's max_length was reduced by the return leg in _reset and the checker adds that distance back (distances on both sides)
+_signs("CVRPTWEnv", "time-window", table=CHECK, time_windows={+1, -1})
+_signs("MTVRPEnv", "time-window", table=CHECK, time_windows={+1, -1}, speed={+1})
+_signs("MTVRPEnv", "distance-limit", table=CHECK, open_route={+1})
+_signs("OPEnv", "length", table=CHECK, **{"|dist|": {+1, -1}})
 
 CHECK_ENVS = dict(ENVS)
 CHECK_ENVS.pop("MTSPEnv")
